@@ -8,6 +8,8 @@ open Gmx
 def pMarket (s : String) : Option RMarket :=
   match (s.splitOn ":").mapM pNat with
   | some [t, l, sh, bl, bs, ml, ms] => some { token := t, long := l, short := sh, balL := bl, balS := bs, minL := ml, minS := ms }
+  | some [t, l, sh, bl, bs, ml, ms, cl, cs] =>
+    some { token := t, long := l, short := sh, balL := bl, balS := bs, minL := ml, minS := ms, colL := cl, colS := cs }
   | _ => none
 
 def pNatList (s : String) : Option (List Nat) :=
